@@ -24,6 +24,7 @@ PARAMS = {
     "none": None,
     "empty": {},
     "nested": {"a": {"b": None, "c": [1, None, {"d": None}]}, "s": "x y", "n": 0},
+    "meta": {"_meta": {"trace": "t-1", "n": None}, "name": "tool", "arguments": {}},
 }
 
 
@@ -432,7 +433,7 @@ def configs_for(tier: str):
     # depth 1: full product of timeouts, id shapes, params shapes, callback
     for T in (0.3, 1.0, 1.2):
         for idk in ("uuid", "empty", "str", "digits"):
-            for p in ("none", "empty", "nested"):
+            for p in ("none", "empty", "nested", "meta"):
                 for cb in (False, True):
                     full.append({"T": T, "id": idk, "params": p, "cb": cb, "L": 1, "rich": True})
     deep = []
